@@ -61,7 +61,7 @@ macro_rules! c01_type {
             // ------------------------------------------------------------------ unary
             // ops_level 0: rounding family (bit tricks) only; 1: all unary ops
             let unary = |x: [S; N], lvl: u32, acc: &mut Acc| {
-                let v = T::from_array(x);
+                let v = <T as harness::flat::Flat>::build(&x);
                 let nz = x.iter().any(|a| *a != 0.0);
                 macro_rules! un {
                     ($site:literal, $got:expr, $f:expr) => {{
@@ -228,8 +228,8 @@ macro_rules! c01_type {
 
             // ------------------------------------------------------------------ binary
             let binary = |a: [S; N], b: [S; N], acc: &mut Acc| {
-                let va = T::from_array(a);
-                let vb = T::from_array(b);
+                let va = <T as harness::flat::Flat>::build(&a);
+                let vb = <T as harness::flat::Flat>::build(&b);
                 let nz = a.iter().any(|x| *x != 0.0) || b.iter().any(|x| *x != 0.0);
                 macro_rules! bin {
                     ($site:literal, $got:expr, $f:expr, $skipnan:expr) => {{
@@ -440,7 +440,7 @@ macro_rules! c01_type {
                             c[i] = $BG[0][i][2];
                         }
                     }
-                    let (va, vb, vc) = (T::from_array(a), T::from_array(b), T::from_array(c));
+                    let (va, vb, vc) = (<T as harness::flat::Flat>::build(&a), <T as harness::flat::Flat>::build(&b), <T as harness::flat::Flat>::build(&c));
                     // mul_add: fused
                     let g = va.mul_add(vb, vc).to_array();
                     let mut e = [0.0 as S; N];
